@@ -1103,6 +1103,8 @@ class Engine:
         if special is not None:
             yield from special
             return
+        if isinstance(e.func, ast.Attribute) and e.func.attr == 'wait_for' and e.args and isinstance(e.args[0], ast.Call):
+            e.args[0]._pyvc_in_wait_for = True       # E.wait() wrapped in asyncio.wait_for(..., timeout): the timeout is applied there
         for c, f in self.ev(e.func, ctx):
             if isinstance(f, Raised):
                 yield c, f
@@ -1124,6 +1126,7 @@ class Engine:
                         star_kw = v
                     else:
                         kwargs[k.arg] = v
+                self.cur_call_node = e
                 yield from self.call(c2, f, self.flatten_args(c2, args), kwargs, star_kw, node=e)
 
     def flatten_args(self, ctx, args):
